@@ -18,7 +18,7 @@ RULE = (
     "multisets, percolation-closedness, minimal trap spaces); non-trivial = >=4 nodes, or an edge with >=2 motifs, or a node "
     "with >=2 parents, or a source variable"
 )
-EXHAUSTIVE_NOTE = "all 4 one-variable and 256 two-variable networks x {bfs,dfs}"
+EXHAUSTIVE_NOTE = "all 4 one-variable and 256 two-variable networks (thorough: plus a fixed slice of 4094 three-variable networks) x {bfs,dfs}"
 
 
 @st.composite
@@ -40,6 +40,10 @@ def exhaustive(tier):
         if k not in seen:
             seen.add(k)
             nets.append(c["net"])
+    if tier == "thorough":
+        from .c09 import three_var_slice
+
+        nets += three_var_slice(4099)
     return [{"net": nj, "strategy": s} for nj in nets for s in ("bfs", "dfs")]
 
 
